@@ -309,6 +309,36 @@ pub fn stress_sources() -> Vec<(String, String)> {
     }
     s.push_str(&format!("print(\"~\\n\", {});\n", e));
     v.push(("deep-nesting".into(), s));
+    // a field and a method of the same name; ill-formed literals that are never evaluated, or only
+    // after earlier output
+    v.push((
+        "member-name-clashes".into(),
+        "let o = object begin let v = 1; function v() -> this.v + 1; let get = 5; function get(i) -> i * 2; end;\nprint(\"~ ~ ~ ~\\n\", o.v, o.v(), o.get, o[4]);\nfunction never() -> object begin let d = 1; let d = 2; end;\nif false then object begin function m() -> 1; function m() -> 2; end else print(\"alive\\n\");\nlet c = object extends o begin let v = 10; function w() -> this.v; end;\nprint(\"~ ~ ~\\n\", c.v, c.v(), c.w());\nprint(\"before\\n\");\nobject begin let e = print(\"init1\\n\"); function e() -> 1; let e = print(\"init2\\n\"); end;\nprint(\"not reached\\n\");\n".into(),
+    ));
+    // one access site, receivers of different layouts
+    v.push((
+        "polymorphic-sites".into(),
+        "function getx(o) -> o.x;\nfunction setx(o, v) -> o.x <- v;\nfunction callm(o, a) -> o.m(a);\nfunction plus(a, b) -> a + b;\nfunction at(c, i) -> c[i];\nfunction put(c, i, v) -> c[i] <- v;\nlet a = object begin let x = 1; let y = 2; function m(k) -> this.x + k; end;\nlet b = object begin let y = 20; let x = 10; function m(k) -> this.y + k; end;\nlet c = object extends a begin let z = 0; let x = 100; end;\nlet d = object begin let q = 7; let r = 8; let x = 1000; function m(k) -> k; function +(o) -> 5; function get(i) -> i * 2; function set(i, v) -> this.q <- v; end;\nlet arr = array(3, 4);\nprint(\"~ ~ ~ ~\\n\", getx(a), getx(b), getx(c), getx(d));\nprint(\"~ ~ ~ ~\\n\", getx(d), getx(c), getx(b), getx(a));\nsetx(a, 5); setx(b, 50); setx(c, 500); setx(d, 5000);\nprint(\"~ ~ ~ ~\\n\", a, b, c, d);\nprint(\"~ ~ ~ ~\\n\", callm(a, 1), callm(b, 1), callm(c, 1), callm(d, 1));\nprint(\"~ ~ ~\\n\", plus(1, 2), plus(d, 2), plus(3, 4));\nprint(\"~ ~ ~\\n\", at(arr, 1), at(d, 1), at(arr, 2));\nput(arr, 0, 9); put(d, 0, 9); put(arr, 1, 8);\nprint(\"~ ~\\n\", arr, d);\nlet i = 0;\nwhile i < 6 do begin\n  let o = if i % 2 == 0 then a else b;\n  print(\"~ ~ ~;\", getx(o), callm(o, i), setx(o, i));\n  i <- i + 1\nend;\nprint(\"\\n~ ~\\n\", a, b);\n".into(),
+    ));
+    // long histories: more than 2^16 iterations, allocations, calls and prints in one run; values
+    // created before the history must still be intact after it
+    v.push((
+        "long-loop".into(),
+        "let i = 0; let s = 0;\nwhile i < 70000 do begin s <- s + i % 7; i <- i + 1; if i % 10000 == 0 then print(\"~ ~\\n\", i, s) end;\nprint(\"~ ~\\n\", i, s);\n".into(),
+    ));
+    v.push((
+        "long-allocations".into(),
+        "let early = object begin let tag = 77; function get() -> this.tag; end;\nlet earr = array(3, 5);\nlet keep = array(8, null);\nlet i = 0;\nwhile i < 70000 do begin\n  let o = object begin let id = i; end;\n  if i % 10000 == 1 then keep[i / 10000] <- o;\n  i <- i + 1\nend;\nprint(\"~ ~ ~ ~\\n\", early, earr, keep, early.get());\nlet late = object extends early begin let more = i; end;\nprint(\"~ ~\\n\", late, late.get());\n".into(),
+    ));
+    v.push((
+        "long-calls".into(),
+        "function f(a, b) -> a + b;\nlet o = object begin let n = 0; function inc(d) -> begin this.n <- this.n + d; this.n end; end;\nlet i = 0; let acc = 0;\nwhile i < 70000 do begin acc <- f(acc, 1); o.inc(2); i <- i + 1 end;\nprint(\"~ ~ ~\\n\", acc, o.n, o);\n".into(),
+    ));
+    v.push(("long-prints".into(), "let i = 0;\nwhile i < 66000 do begin print(\"~\\n\", i); i <- i + 1 end;\nprint(\"done ~\\n\", i);\n".into()));
+    v.push((
+        "long-distinct-elements".into(),
+        "let c = 0;\nlet a = array(70000, object begin let id = c <- c + 1; end);\nprint(\"~ ~ ~ ~ ~\\n\", a[0].id, a[65535].id, a[65536].id, a[69999].id, c);\na[65536].id <- 0 - 1;\nprint(\"~ ~ ~\\n\", a[65535], a[65536], a[65537]);\n".into(),
+    ));
     v
 }
 
